@@ -46,7 +46,7 @@ def run(ctx):
                    'callbacks supplied by the user are outside the check']
     scope = Scope(repo, UNITS, PARAM_KINDS)
     scope.solve()
-    methods = repo.methods(INF, 'FactoredInference')
+    methods = repo.nmethods(INF, 'FactoredInference')
     public = [m for n, m in methods.items() if not n.startswith('_') or n == '__init__']
     check_A1(ctx, scope, methods, public)
     percall, config = attr_classes(methods)
